@@ -193,15 +193,26 @@ class ResponseModel:
             keys = set()
             for a in h[3]:
                 keys |= keys_of(a)
+            def canon(k):
+                try:
+                    k = st.resolve_key(k)
+                except Exception:
+                    pass
+                return tuple(y for y in k if y != "*")
+            ckeys = {canon(k) for k in keys}
+            def same_place(k):
+                # the list appended to is what the head writer is given a view of, or a part of it (a field of a struct handed over whole)
+                c = canon(k)
+                return any(c[:len(x)] == x or x[:len(c)] == c for x in ckeys)
             appends = []
             for j, e in enumerate(ev[:out["head"]]):
-                if e[1] == "call" and re.search(r"(Vec::<T(, A)?>|VecDeque::<T(, A)?>)::(push|push_back|push_front|insert|extend\w*|append)$", e[2]) and e[3] and e[3][0] and e[3][0][0] == "ref":
+                if e[1] == "call" and re.search(r"(Vec::<T(, A)?>|VecDeque::<T(, A)?>)::(push|push_back|push_front|insert|extend\w*|append)$|(Vec|VecDeque)<.*> as std::iter::Extend<.*>>::extend\w*$", e[2]) and e[3] and e[3][0] and e[3][0][0] == "ref":
                     appends.append((j, e[3][0][1], list(e[3][1:]) + list((e[8] or [])[1:])))
             sent, unsent = [], []
             for (i, name, val) in out["headers"]:
                 ct = ev[i][4]
                 direct = i < out["head"] and any(absint.mentions_call(a, ct) for a in hargs)
-                via = any(j > i and k in keys and any(absint.mentions_call(x, ct) for x in vals) for j, k, vals in appends)
+                via = any(j > i and same_place(k) and any(absint.mentions_call(x, ct) for x in vals) for j, k, vals in appends)
                 (sent if (direct or via) else unsent).append((i, name, val))
             out["headers"], out["unsent"] = sent, unsent
         return out
